@@ -31,7 +31,14 @@ impl<'a, B: ByteOrder> Buffer<'a, B> {
     pub closed spec fn pos(&self) -> int { self.cursor as int }
     /// C17 invariant: the position always stays within the packet
     pub closed spec fn wf(&self) -> bool { 0 <= self.cursor <= self.data@.len() <= isize::MAX }
+    /// the unread bytes.  Opaque: clients reason about it only through the contracts below (keeps vstd's subrange
+    /// axioms out of the parser proofs); `lemma_rest` gives the definition where it is needed.
+    #[verifier::opaque]
     pub closed spec fn rest(&self) -> Seq<u8> { self.data@.subrange(self.cursor as int, self.data@.len() as int) }
+    pub proof fn lemma_rest(&self)
+        requires self.wf()
+        ensures self.rest() == self.bytes().subrange(self.pos(), self.bytes().len() as int), self.rest().len() == self.bytes().len() - self.pos()
+    { reveal(Buffer::rest); }
 }
 
 pub open spec fn delim_of<D: StringDecoder>(until: Option<D::Delimiter>) -> D::Delimiter {
@@ -41,10 +48,10 @@ pub open spec fn delim_of<D: StringDecoder>(until: Option<D::Delimiter>) -> D::D
 impl<'a, B: ByteOrder> Buffer<'a, B> {
 /*@ fn file=crates/lib/src/buffer.rs impl="impl<'a, B: ByteOrder> Buffer<'a, B>" name=new
 spec {
-    ensures r.wf(), r.bytes() == data@, r.pos() == 0,
+    ensures r.wf(), r.bytes() == data@, r.pos() == 0, r.rest() == data@,
 }
 body_start {
-    proof { axiom_slice_len(data); }     // Rust slice guarantee (trusted base)
+    proof { reveal(Buffer::rest); axiom_slice_len(data); assert(data@.subrange(0, data@.len() as int) =~= data@); }     // Rust slice guarantee (trusted base)
 }
 @*/
 /*@ fn file=crates/lib/src/buffer.rs impl="impl<'a, B: ByteOrder> Buffer<'a, B>" name=current_position
@@ -57,6 +64,9 @@ spec {
     requires self.wf(),
     ensures r == self.bytes().len() - self.pos(), r == self.rest().len(),
 }
+body_start {
+    proof { reveal(Buffer::rest); }
+}
 @*/
 /*@ fn file=crates/lib/src/buffer.rs impl="impl<'a, B: ByteOrder> Buffer<'a, B>" name=data_length
 spec {
@@ -68,6 +78,9 @@ spec {
     requires self.wf(),
     ensures r@ == self.rest(),
 }
+body_start {
+    proof { reveal(Buffer::rest); }
+}
 @*/
 /*@ fn file=crates/lib/src/buffer.rs impl="impl<'a, B: ByteOrder> Buffer<'a, B>" name=move_cursor
 spec {
@@ -77,19 +90,12 @@ spec {
         final(self).bytes() == old(self).bytes(),
         r is Ok <==> 0 <= old(self).pos() + offset <= old(self).bytes().len(),
         r is Ok ==> final(self).pos() == old(self).pos() + offset,
-        r is Ok && offset >= 0 ==> final(self).rest() == old(self).rest().subrange(offset as int, old(self).rest().len() as int),
-        forall|a: Seq<u8>, t: Seq<u8>| offset >= 0 && old(self).rest() == #[trigger] (a + t) && a.len() == offset
-            ==> r is Ok && final(self).rest() == t,
+        r is Ok && offset >= 0 ==> final(self).rest() == tail_of(old(self).rest(), offset as int),
+        offset >= 0 ==> (r is Ok <==> offset <= old(self).rest().len()),
         r is Err ==> final(self).pos() == old(self).pos() && final(self).rest() == old(self).rest() && r->Err_0.kind == PacketBad,
 }
 body_start {
-    proof {
-        assert forall|a: Seq<u8>, t: Seq<u8>| offset >= 0 && old(self).rest() == #[trigger] (a + t) && a.len() == offset
-            implies old(self).pos() + offset <= old(self).bytes().len()
-                 && old(self).rest().subrange(offset as int, old(self).rest().len() as int) == t by {
-            assert((a + t).subrange(a.len() as int, (a + t).len() as int) =~= t);
-        }
-    }
+    proof { reveal(tail_of); reveal(Buffer::rest); }
 }
 @*/
 /*@ fn file=crates/lib/src/buffer.rs impl="impl<'a, B: ByteOrder> Buffer<'a, B>" name=read
@@ -101,27 +107,16 @@ spec {
         final(self).bytes() == old(self).bytes(),
         r is Ok <==> old(self).rest().len() >= T::width(),
         r is Ok ==> final(self).pos() == old(self).pos() + T::width()
-                 && final(self).rest() == old(self).rest().subrange(T::width() as int, old(self).rest().len() as int)
-                 && r->Ok_0 == T::decode(old(self).rest().subrange(0, T::width() as int)),
-        r is Err ==> final(self).rest() == old(self).rest(),
-        // step form used by the decode-correctness proofs: if the unread bytes are `a + t` with |a| = width, the read
-        // yields decode(a) and leaves exactly `t`
-        forall|a: Seq<u8>, t: Seq<u8>| old(self).rest() == #[trigger] (a + t) && a.len() == T::width()
-            ==> r is Ok && r->Ok_0 == T::decode(a) && final(self).rest() == t,
-        r is Err ==> final(self).pos() == old(self).pos() && r->Err_0.kind == PacketUnderflow,
+                 && final(self).rest() == tail_of(old(self).rest(), T::width() as int)
+                 && r->Ok_0 == T::decode(head_of(old(self).rest(), T::width() as int)),
+        r is Err ==> final(self).pos() == old(self).pos() && final(self).rest() == old(self).rest() && r->Err_0.kind == PacketUnderflow,
 }
 body_start {
-    proof { T::width_is_size(); }
+    proof { T::width_is_size(); reveal(head_of); reveal(tail_of); reveal(Buffer::rest); }
 }
 after "let bytes" {
     proof {
         assert(bytes@ == old(self).rest().subrange(0, T::width() as int));
-        assert forall|a: Seq<u8>, t: Seq<u8>| old(self).rest() == #[trigger] (a + t) && a.len() == T::width()
-            implies old(self).rest().subrange(0, T::width() as int) == a
-                 && old(self).rest().subrange(T::width() as int, old(self).rest().len() as int) == t by {
-            assert((a + t).subrange(0, a.len() as int) =~= a);
-            assert((a + t).subrange(a.len() as int, (a + t).len() as int) =~= t);
-        }
     }
 }
 @*/
@@ -134,26 +129,20 @@ spec {
         final(self).bytes() == old(self).bytes(),
         old(self).pos() <= final(self).pos(),
         r is Err ==> final(self).pos() == old(self).pos(),
-        r is Ok ==> final(self).pos() == old(self).pos() + D::consumed(old(self).rest(), until.unwrap_or(D::DELIMITER))
-                 && final(self).rest() == old(self).rest().subrange(D::consumed(old(self).rest(), until.unwrap_or(D::DELIMITER)) as int, old(self).rest().len() as int)
-                 && r->Ok_0@ == D::text(old(self).rest(), until.unwrap_or(D::DELIMITER)),
-        r is Ok <==> D::decodes(old(self).rest(), until.unwrap_or(D::DELIMITER)),
-        // step form: if the unread bytes are wire(txt) + t, the read yields txt and leaves exactly t
-        forall|txt: Seq<char>, t: Seq<u8>| D::wire_ok(txt, delim_of::<D>(until))
-            && old(self).rest() == #[trigger] (D::wire(txt, delim_of::<D>(until)) + t)
-            ==> r is Ok && r->Ok_0@ == txt && final(self).rest() == t,
+        r is Ok ==> final(self).pos() == old(self).pos() + D::consumed(old(self).rest(), delim_of::<D>(until))
+                 && r->Ok_0@ == D::text(old(self).rest(), delim_of::<D>(until)),
+        r is Ok <==> D::decodes(old(self).rest(), delim_of::<D>(until)),
+        r is Ok ==> final(self).rest() == tail_of(old(self).rest(), D::consumed(old(self).rest(), delim_of::<D>(until)) as int),
+        // NUL/byte-delimited UTF-8 strings, stated over plain (non trait-dispatched) functions
+        D::is_utf8() ==> (r is Ok <==> utf8_ok(old(self).rest(), D::d0(delim_of::<D>(until))))
+            && (r is Ok ==> r->Ok_0@ == utf8_txt(old(self).rest(), D::d0(delim_of::<D>(until)))
+                         && final(self).rest() == tail_of(old(self).rest(), utf8_consumed(old(self).rest(), D::d0(delim_of::<D>(until))) as int)),
 }
 body_start {
     proof {
-        let dd = delim_of::<D>(until);
-        assert(dd == until.unwrap_or(D::DELIMITER));
-        assert forall|txt: Seq<char>, t: Seq<u8>| D::wire_ok(txt, dd) && old(self).rest() == #[trigger] (D::wire(txt, dd) + t)
-            implies D::decodes(old(self).rest(), dd) && D::consumed(old(self).rest(), dd) == D::wire(txt, dd).len()
-                 && D::text(old(self).rest(), dd) == txt
-                 && old(self).rest().subrange(D::wire(txt, dd).len() as int, old(self).rest().len() as int) == t by {
-            D::lemma_wire(txt, dd, t);
-            assert((D::wire(txt, dd) + t).subrange(D::wire(txt, dd).len() as int, (D::wire(txt, dd) + t).len() as int) =~= t);
-        }
+        assert(delim_of::<D>(until) == until.unwrap_or(D::DELIMITER));
+        reveal(tail_of); reveal(Buffer::rest);
+        D::lemma_is_utf8(old(self).rest(), delim_of::<D>(until));
     }
 }
 @*/
@@ -178,8 +167,12 @@ spec {
         r is Ok <==> old(self).pos() + size <= old(self).bytes().len(),
         r is Ok ==> final(self).pos() == old(self).pos() + size
                  && r->Ok_0.wf() && r->Ok_0.pos() == 0
-                 && r->Ok_0.bytes() == old(self).rest().subrange(0, size as int),
-        r is Err ==> final(self).pos() == old(self).pos(),
+                 && r->Ok_0.bytes() == head_of(old(self).rest(), size as int) && r->Ok_0.rest() == head_of(old(self).rest(), size as int)
+                 && final(self).rest() == tail_of(old(self).rest(), size as int),
+        r is Err ==> final(self).pos() == old(self).pos() && final(self).rest() == old(self).rest(),
+}
+body_start {
+    proof { reveal(head_of); reveal(tail_of); reveal(Buffer::rest); }
 }
 @*/
 }
@@ -315,6 +308,13 @@ pub trait StringDecoder {
     spec fn text(data: Seq<u8>, d: Self::Delimiter) -> Seq<char>;
     /// whether decoding succeeds
     spec fn decodes(data: Seq<u8>, d: Self::Delimiter) -> bool;
+    /// true for the byte-delimited UTF-8 decoder, whose model is also available as the plain functions utf8_*
+    spec fn is_utf8() -> bool;
+    spec fn d0(d: Self::Delimiter) -> u8;
+    proof fn lemma_is_utf8(data: Seq<u8>, d: Self::Delimiter)
+        ensures Self::is_utf8() ==> Self::consumed(data, d) == utf8_consumed(data, Self::d0(d))
+                                 && Self::text(data, d) == utf8_txt(data, Self::d0(d))
+                                 && Self::decodes(data, d) == utf8_ok(data, Self::d0(d));
     /// wire form of a terminated string `txt` (encoder side of the reference model) and its side condition
     spec fn wire(txt: Seq<char>, d: Self::Delimiter) -> Seq<u8>;
     spec fn wire_ok(txt: Seq<char>, d: Self::Delimiter) -> bool;
@@ -340,16 +340,24 @@ pub struct Utf8Decoder;
 /// end of the string: index of the first delimiter byte, or the data length if there is none
 pub open spec fn str_end(data: Seq<u8>, d: u8) -> int { first_index_of(data, d) }
 
+/// reference model of a byte-delimited UTF-8 string (property C17): consume the string and its delimiter, or the rest
+/// of the packet if unterminated
+pub open spec fn utf8_consumed(data: Seq<u8>, d0: u8) -> nat {
+    if str_end(data, d0) < data.len() { (str_end(data, d0) + 1) as nat } else { data.len() }
+}
+pub open spec fn utf8_txt(data: Seq<u8>, d0: u8) -> Seq<char> { utf8_text(data.subrange(0, str_end(data, d0))) }
+pub open spec fn utf8_ok(data: Seq<u8>, d0: u8) -> bool { utf8_valid(data.subrange(0, str_end(data, d0))) }
 /*@ present file=crates/lib/src/buffer.rs text="impl StringDecoder for Utf8Decoder {" @*/
 impl StringDecoder for Utf8Decoder {
+    open spec fn is_utf8() -> bool { true }
+    open spec fn d0(d: [u8; 1]) -> u8 { d@[0] }
+    proof fn lemma_is_utf8(data: Seq<u8>, d: [u8; 1]) { }
 /*@ item file=crates/lib/src/buffer.rs impl="impl StringDecoder for Utf8Decoder" kind=type name=Delimiter @*/
 /*@ item file=crates/lib/src/buffer.rs impl="impl StringDecoder for Utf8Decoder" kind=const name=DELIMITER @*/
     // reference model (property C17): consume the string and its delimiter, or the rest if unterminated
-    open spec fn consumed(data: Seq<u8>, d: [u8; 1]) -> nat {
-        if str_end(data, d@[0]) < data.len() { (str_end(data, d@[0]) + 1) as nat } else { data.len() }
-    }
-    open spec fn text(data: Seq<u8>, d: [u8; 1]) -> Seq<char> { utf8_text(data.subrange(0, str_end(data, d@[0]))) }
-    open spec fn decodes(data: Seq<u8>, d: [u8; 1]) -> bool { utf8_valid(data.subrange(0, str_end(data, d@[0]))) }
+    open spec fn consumed(data: Seq<u8>, d: [u8; 1]) -> nat { utf8_consumed(data, d@[0]) }
+    open spec fn text(data: Seq<u8>, d: [u8; 1]) -> Seq<char> { utf8_txt(data, d@[0]) }
+    open spec fn decodes(data: Seq<u8>, d: [u8; 1]) -> bool { utf8_ok(data, d@[0]) }
     open spec fn wire(txt: Seq<char>, d: [u8; 1]) -> Seq<u8> { utf8_bytes(txt).push(d@[0]) }
     open spec fn wire_ok(txt: Seq<char>, d: [u8; 1]) -> bool { no_byte(utf8_bytes(txt), d@[0]) }
     proof fn lemma_wire(txt: Seq<char>, d: [u8; 1], tail: Seq<u8>) {
@@ -368,6 +376,28 @@ body_start {
 @*/
 }
 
+/// reading a NUL-terminated string from `cat(cstr(txt), t)` yields txt and leaves t (one instantiation per read; the
+/// trigger is a plain spec function applied to an opaque `cat` term)
+pub broadcast proof fn lemma_cstr_read(txt: Seq<char>, t: Seq<u8>, z: u8)
+    requires no_nul(txt)
+    ensures
+        #![trigger utf8_consumed(cat(cstr(txt), t), z)]
+        #![trigger utf8_ok(cat(cstr(txt), t), z)]
+        z == 0u8 ==> utf8_consumed(cat(cstr(txt), t), z) == cstr(txt).len()
+                  && utf8_ok(cat(cstr(txt), t), z)
+                  && utf8_txt(cat(cstr(txt), t), z) == txt,
+{
+    if z == 0u8 {
+        let d: [u8; 1] = [0u8];
+        axiom_utf8_no_nul(txt);
+        Utf8Decoder::lemma_wire(txt, d, t);
+        lemma_cat_is_add(cstr(txt), t);
+    }
+}
+pub broadcast proof fn lemma_default_delimiter()
+    ensures #[trigger] delim_of::<Utf8Decoder>(None::<[u8; 1]>)@[0] == 0u8
+{}
+pub broadcast group group_cstr { lemma_cstr_read, lemma_default_delimiter, group_stream }
 /// a NUL-terminated string is the wire form of the default-delimiter Utf8Decoder
 pub broadcast proof fn lemma_cstr_wire(txt: Seq<char>)
     ensures
@@ -390,6 +420,9 @@ impl StringDecoder for Utf8LengthPrefixedDecoder {
 /*@ item file=crates/lib/src/buffer.rs impl="impl StringDecoder for Utf8LengthPrefixedDecoder" kind=const name=DELIMITER @*/
     // reference model: first byte n is the length; the string is the n bytes that follow, cut at the
     // first delimiter inside them; fails (PacketUnderflow) if the string would extend past the data.
+    open spec fn is_utf8() -> bool { false }
+    open spec fn d0(d: [u8; 1]) -> u8 { d@[0] }
+    proof fn lemma_is_utf8(data: Seq<u8>, d: [u8; 1]) { }
     open spec fn consumed(data: Seq<u8>, d: [u8; 1]) -> nat { (1 + lp_end(data, d@[0])) as nat }
     open spec fn text(data: Seq<u8>, d: [u8; 1]) -> Seq<char> { utf8_text(data.subrange(1, 1 + lp_end(data, d@[0]))) }
     open spec fn decodes(data: Seq<u8>, d: [u8; 1]) -> bool {
@@ -431,6 +464,9 @@ impl<B: ByteOrder> StringDecoder for Utf16Decoder<B> {
 /*@ item file=crates/lib/src/buffer.rs impl="impl<B: ByteOrder> StringDecoder for Utf16Decoder<B>" kind=const name=DELIMITER @*/
     // reference model: 2-byte units up to the first unit equal to the delimiter; consume units and
     // delimiter, or the rest of the packet if unterminated.
+    open spec fn is_utf8() -> bool { false }
+    open spec fn d0(d: [u8; 2]) -> u8 { d@[0] }
+    proof fn lemma_is_utf8(data: Seq<u8>, d: [u8; 2]) { }
     open spec fn consumed(data: Seq<u8>, d: [u8; 2]) -> nat {
         if first_pair_index(data, d@) < data.len() / 2 { (2 * first_pair_index(data, d@) + 2) as nat } else { data.len() }
     }
